@@ -10,7 +10,7 @@ import itertools
 
 import numpy as np
 
-from vlib.core import Result, pmap, merge_results, run_hypothesis, quiet
+from vlib.core import Result, pmap, merge_results, run_hypothesis, quiet, digest
 
 NAN = float("nan")
 
@@ -232,6 +232,28 @@ def _hyp_shard(arg):
                 fail(case, "; ".join(msgs))
         return test
     run_hypothesis(big_builder, res, 500 + shard, max(10, n_examples // 4))
+
+    def long_builder(res, fail):
+        @st.composite
+        def long_cases(draw):
+            L = draw(st.sampled_from([9999, 10000, 10001, 10007, 12345, 20011, 31013]))
+            n_cells = draw(st.integers(2, 6))
+            rng = np.random.default_rng(draw(st.integers(0, 10 ** 6)))
+            traj = rng.integers(0, n_cells, size=L).astype(float)
+            traj[rng.random(L) < draw(st.sampled_from([0.0, 0.01]))] = NAN
+            return {"traj": [None if x != x else int(x) for x in traj], "n_cells": n_cells,
+                    "tau": draw(st.sampled_from([1, 2, 3, 6, 7, 9, 10, 64, 333])), "noncorr": draw(st.booleans()), "tau_form": "int"}
+
+        @given(long_cases())
+        def test(case):
+            msgs = judge(case)
+            res.case(sample={k: (v if k != "traj" else f"<{len(v)} frames>") for k, v in case.items()}, nontrivial=True,
+                     key=[len(case["traj"]), case["tau"], case["noncorr"], case["n_cells"], digest(case["traj"][:200])],
+                     classes=["long_trajectory(>=9999 frames)", "noncorr" if case["noncorr"] else "sliding"])
+            if msgs:
+                fail(case, "; ".join(msgs))
+        return test
+    run_hypothesis(long_builder, res, 900 + shard, 3, shrink=False)
     # the all-tau helper must agree with the single-tau function
     from molgri.molecules.transitions import MSM
     rng = np.random.default_rng([shard, 12])
@@ -292,7 +314,7 @@ def run(tier):
     res.violations.sort(key=lambda v: (len(v["case"]["traj"]), str(v["case"])))
     rule = (f"exhaustive: every trajectory of length 0..{max_len} over {len(alphabet) - 1} cells + NaN, tau in {list(taus)}, "
             f"both window modes, {n_cells} cells (one never visited), tau passed as int/np.int64/float/str; plus Hypothesis "
-            f"trajectories up to length 300, <=15 cells, tau<=40, NaN runs, and sparse comparisons for 65 535 .. 3 000 000 cells with a few visited cells at both ends of the index range. Non-trivial = at least one counted window and "
+            f"trajectories up to length 300, <=15 cells, tau<=40, NaN runs, a few trajectories of 9 999 .. 31 013 frames, and sparse comparisons for 65 535 .. 3 000 000 cells with a few visited cells at both ends of the index range. Non-trivial = at least one counted window and "
             f"(a NaN frame or a revisited cell); distinct = distinct (trajectory, tau, mode, cells).")
     return res, rule, {"exhaustive": False, "extra": {"exhaustive_part_evaluations": n_exh,
                                                       "exhaustive_part": "the short-trajectory enumeration was completed"},
